@@ -424,9 +424,39 @@ pub fn gen_c13(rng: &mut Rng, thorough: bool) -> WorldTrace {
         l
     };
     let mut variants = vec![base("dir", Entry::Check, vec!["ws".into()], rng)];
-    for _ in 0..rng.range(1, 3) {
-        let a = file_args(rng);
-        variants.push(base("files", Entry::Check, a, rng));
+    if files.len() <= 3 {
+        // every argument order (the quantifier's "in every argument order")
+        let mut names: Vec<String> = files.iter().map(|f| format!("ws/{}", f.name)).collect();
+        names.sort();
+        let n = names.len();
+        let mut idx: Vec<usize> = (0..n).collect();
+        let mut orders = vec![idx.clone()];
+        let mut c = vec![0usize; n];
+        let mut i = 0;
+        while i < n {
+            if c[i] < i {
+                if i % 2 == 0 {
+                    idx.swap(0, i);
+                } else {
+                    idx.swap(c[i], i);
+                }
+                orders.push(idx.clone());
+                c[i] += 1;
+                i = 0;
+            } else {
+                c[i] = 0;
+                i += 1;
+            }
+        }
+        for o in orders {
+            let a: Vec<String> = o.iter().map(|i| names[*i].clone()).collect();
+            variants.push(base("files", Entry::Check, a, rng));
+        }
+    } else {
+        for _ in 0..rng.range(1, 3) {
+            let a = file_args(rng);
+            variants.push(base("files", Entry::Check, a, rng));
+        }
     }
     // mixtures: the same file twice, a file plus its directory
     let mut a = file_args(rng);
